@@ -313,6 +313,10 @@ func runCases(path string, out *bufio.Writer) error {
 				} else {
 					res = xpath.VerifQueryDump(e)
 				}
+			case "cache":
+				res = doCache(doc.Unesc(fl[6]))
+			case "regex":
+				res = doRegex(doc.Unesc(fl[6]))
 			case "hash":
 				d := docs[fl[3]]
 				ctx, _ := doc.ParseAddr(d.root, fl[4])
